@@ -398,6 +398,14 @@ func (in *inv) step(op *Op) {
 	case "error":
 		in.call("error", 0, fmt.Sprint("nonfatal", op.Text))
 		t.Error("nonfatal", op.Text)
+	case "errornl": // a non-fatal failure whose message begins with a line break (the shape assertion libraries produce)
+		msg := "\n\tError: not equal\n\twant: 1\n\tgot:  2 " + op.Text
+		in.call("errorf", 0, msg)
+		if op.N == 1 {
+			t.Error(msg)
+		} else {
+			t.Errorf("%s", msg)
+		}
 	case "error0": // a non-fatal failure with an empty message
 		in.call("error", 0, "")
 		t.Error()
